@@ -1,7 +1,123 @@
 import Mixin.Model.Locks
+import Mixin.Proofs.KV
+import Mixin.Proofs.Locks
+import Mixin.Facts.ExpectedC04
+/-!
+# C04 — a one-time output key is bound to at most one transaction
+
+`GHOST[k]` is the transaction an output key is bound to.  The theorems quantify over every
+database and every list of atomic calls (admissions with or without the fork flag,
+`WriteTransaction`, `WriteSnapshot`), i.e. every interleaving of concurrent callers.
+-/
 namespace Mixin.C04
 open Mixin.KV Mixin.Locks
 
-theorem placeholder : True := trivial
+def cfg0 : Cfg := { exc := [101, 102, 103], nodes := [1, 2] }
+
+/-- key 7 is bound to transaction 5, whose body is stored -/
+def sample : Store := { ghost := [(7, 5)], tx := [(5, ()), (6, ())] }
+
+def okAnd (r : Res) (p : Store → Bool) : Bool :=
+  match r with
+  | .ok s' => p s'
+  | _ => false
+
+theorem step_ghost_mono (c : Cfg) (s : Store) (op : Op) : GhostMono s (step c s op) := by
+  unfold step
+  split
+  · next s' h => exact exec_ghost_mono h
+  · exact fun _ _ h => h
+
+/-- `ghost_binding_immutable`: once `GHOST[k] = v`, it is `v` after any further list of calls —
+    fork flag, exceptions, finalizations and prunes included. -/
+theorem ghost_binding_immutable (c : Cfg) (s : Store) (ops : List Op) (k v : Nat)
+    (h : s.ghost.get k = some v) : (run c s ops).ghost.get k = some v := by
+  unfold run
+  induction ops generalizing s with
+  | nil => exact h
+  | cons op rest ih => exact ih (step c s op) (step_ghost_mono c s op k v h)
+
+example : (run cfg0 sample [.lockGhostKeys [7] 101 true, .lockGhostKeys [7, 8] 6 true,
+    .snapshot 1 [{ id := 6, ins := [.genesis], outs := [[7]] }]]).ghost.get 7 = some 5 := by decide
+
+/-- `ghost_foreign_rejected`: a key list that contains a key bound to another transaction is
+    refused and nothing changes — unless the call carries the fork flag *and* the requester is one
+    of the hard-coded exceptions. -/
+theorem ghost_foreign_rejected (c : Cfg) (s : Store) (keys : List Nat) (k t t' : Nat) (fork : Bool)
+    (hk : k ∈ keys) (hg : s.ghost.get k = some t) (hne : t ≠ t') (hx : ¬ (fork = true ∧ t' ∈ c.exc)) :
+    exec c s (.lockGhostKeys keys t' fork) = .err ∧ step c s (.lockGhostKeys keys t' fork) = s := by
+  have h : exec c s (.lockGhostKeys keys t' fork) = .err := by
+    simp only [exec, lockGhostKeys, lockGhostLoop_foreign hk hg hne hx]
+  exact ⟨h, by simp [step, h]⟩
+
+example : exec cfg0 sample (.lockGhostKeys [8, 7] 6 true) = .err := by decide
+example : exec cfg0 sample (.lockGhostKeys [7] 101 false) = .err := by decide
+
+/-- the exceptions: with the fork flag an exception transaction is accepted against a bound
+    key, and the database — in particular the binding — is unchanged. -/
+theorem ghost_exception_accepted_unchanged (c : Cfg) (s : Store) (k t t' : Nat)
+    (hg : s.ghost.get k = some t) (h0 : t ≠ 0) (hx : t' ∈ c.exc) :
+    exec c s (.lockGhostKeys [k] t' true) = .ok s := by
+  simp [exec, lockGhostKeys, lockGhostLoop, lockGhostKey, hg, h0, hx]
+
+example : exec cfg0 sample (.lockGhostKeys [7] 102 true) = .ok sample := by decide
+
+/-- the storage-level duplicate filter: a key list with a repeated key is refused -/
+theorem ghost_duplicate_rejected (c : Cfg) (s : Store) (pre mid post : List Nat) (k t : Nat) (fork : Bool) :
+    exec c s (.lockGhostKeys (pre ++ k :: mid ++ k :: post) t fork) = .err := by
+  simp only [exec, lockGhostKeys]
+  suffices h : ∀ seen s, lockGhostLoop c.exc t fork (pre ++ k :: mid ++ k :: post) seen s = none by rw [h]
+  induction pre with
+  | nil =>
+    intro seen s
+    simp only [List.nil_append, List.cons_append]
+    unfold lockGhostLoop
+    split
+    · rfl
+    · split
+      · rfl
+      · exact lockGhostLoop_dup (k := k) (by simp) List.mem_cons_self
+  | cons p ps ih =>
+    intro seen s
+    simp only [List.cons_append]
+    unfold lockGhostLoop
+    split
+    · rfl
+    · split
+      · rfl
+      · have := ih (p :: seen)
+        simp only [List.cons_append, List.append_assoc] at this ⊢
+        exact this _
+
+example : exec cfg0 {} (.lockGhostKeys [1, 2, 1] 6 false) = .err := by decide
+
+/-- `finalize_never_overwrites`: finalizing (`WriteSnapshot`) a transaction that is not yet
+    finalized, is not an exception, and lists a key bound to another transaction does not
+    succeed; with `ghost_binding_immutable` the binding stays whatever the outcome. -/
+theorem finalize_never_overwrites (c : Cfg) (s : Store) (node : Nat) (t' : Tx) (ks : List Nat) (k t : Nat)
+    (hks : ks ∈ t'.outs) (hk : k ∈ ks) (hg : s.ghost.get k = some t) (hne : t ≠ t'.id)
+    (hx : t'.id ∉ c.exc) (hfin : s.fin.get t'.id = none) :
+    (∀ s', exec c s (.snapshot node [t']) ≠ .ok s') ∧ step c s (.snapshot node [t']) = s := by
+  have hf : finalizeTransaction c.exc s t' = none := by
+    unfold finalizeTransaction
+    rw [hfin]
+    exact writeUTXOs_foreign hks hk (by simpa using hg) hne hx
+  have h : ∀ s', exec c s (.snapshot node [t']) ≠ .ok s' := by
+    intro s' he
+    simp only [exec, writeSnapshot, snapshotLoop, hf] at he
+    split at he
+    · cases he
+    · split at he <;> cases he
+  refine ⟨h, ?_⟩
+  unfold step
+  split
+  · next s' he => exact absurd he (h s')
+  · rfl
+
+example : exec cfg0 sample (.snapshot 1 [{ id := 6, ins := [.genesis], outs := [[8], [7]] }]) = .err := by decide
+-- and the same transaction is finalized when its keys are free or its own
+example : okAnd (exec cfg0 sample (.snapshot 1 [{ id := 5, ins := [.genesis], outs := [[8], [7]] }]))
+    (fun s' => s'.ghost.get 7 == some 5 && s'.ghost.get 8 == some 5 && s'.utxo.get (5, 1) == some 0) = true := by
+  decide
 
 end Mixin.C04
